@@ -65,6 +65,9 @@ struct ApproxPos {
  */
 template<typename K, size_t Epsilon = 64, size_t EpsilonRecursive = 4, typename Floating = float>
 class PGMIndex {
+#ifdef PGM_INDEX_VERIF
+    friend struct ::pgm_verif::Access;
+#endif
 protected:
     template<typename, size_t, size_t, uint8_t, typename>
     friend class BucketingPGMIndex;
@@ -144,13 +147,23 @@ protected:
 
             static constexpr size_t linear_search_threshold = 8 * 64 / sizeof(Segment);
             if constexpr (EpsilonRecursive <= linear_search_threshold) {
+#ifdef PGM_INDEX_VERIF
+                auto verif_scan_first = lo;
+#endif
                 for (; std::next(lo)->key <= key; ++lo)
                     continue;
                 it = lo;
+#ifdef PGM_INDEX_VERIF
+                PGM_VERIF_ROUTE_LEVEL(l, pos, it - level_begin, (it - verif_scan_first) + 1,
+                                      verif_scan_first - level_begin, (it - level_begin) + 2, false);
+#endif
             } else {
                 auto level_size = levels_offsets[l + 1] - levels_offsets[l] - 1;
                 auto hi = level_begin + PGM_ADD_EPS(pos, EpsilonRecursive, level_size);
                 it = std::prev(std::upper_bound(lo, hi, key));
+#ifdef PGM_INDEX_VERIF
+                PGM_VERIF_ROUTE_LEVEL(l, pos, it - level_begin, 0, lo - level_begin, hi - level_begin, true);
+#endif
             }
         }
         return it;
